@@ -343,6 +343,12 @@ def run(tier: str, seed: int) -> int:
         res.count("operations", len(ops))
         res.sample({"operations": [o["id"] for o in ops][:12], "histories": len(histories)})
         sign_encrypt_twice(res, drv, d)
+        from .. import reuse, suitcases as _sc
+        from .c04 import strip_blocks as _sb
+        d0, f0, _ = _sc.make_case(777, 3, depth=0)
+        reuse.signer_reuse(res, bytes.fromhex(_sc.run_impl_create(_sb(d0), f0)["ok"]), PROP)
+        reuse.encryptor_reuse(res, PROP)
+        reuse.keygen_reuse(res, PROP)
     drv.close()
     return finish(res, st, RULE, NOTE)
 
